@@ -370,6 +370,18 @@ impl Check for C09 {
         true
     }
 
+    fn declared_probes(&self) -> Vec<&'static str> {
+        vec![
+            "fault.child-fail",
+            "fault.component-fail",
+            "probe.children-never-attempted-after-an-error",
+            "probe.empty-population",
+            "probe.set-population-shrank-by-colliding-children",
+            "probe.steps-that-returned-an-error",
+            "probe.two-or-more-makers-overlapped-in-time",
+        ]
+    }
+
     fn rule(&self) -> String {
         "serial + real-thread leg: (a) Generation<Vec<Ind>, Maker>::serial_next for populations 0..=8, 1-4 steps, failures at every \
          enumerated arrival position / two / all, each failed step followed by a fault-free recovery step; (b) the same through \
